@@ -139,3 +139,23 @@ func lemmaHeaderRoundTrip(pre []byte, h header) (ok bool) {
 //@   loop 1 modifies elems(name)
 //@   loop 2 invariant -1 <= rangeindex && rangeindex < endOff - currOff
 //@   modifies *n
+
+// ---------------------------------------------------------------------------
+// Name compression (property C36): every offset recorded in the compression table fits the 14
+// bits of a compression pointer, so a later hit emits a pointer that decodes to the same offset.
+//
+//@ func (*Name).pack(n, msg, compression, compressionOff) (out, err)
+//@   requires n != nil && 0 <= compressionOff && compressionOff <= len(msg)
+//@   requires mapvalsle(compression, 0x3FFF)
+//@   ensures  mapvalsle(compression, 0x3FFF)
+//@   modifies mapof(compression), spare(msg)
+//@   allocates
+//@   loop 1 invariant 0 <= i && i <= int(n.Length) && 0 <= begin && begin <= i && n.Length <= 254
+//@   loop 1 invariant mapvalsle(compression, 0x3FFF) && len(msg) >= compressionOff
+//@   loop 1 invariant nameAsStr == "" || len(nameAsStr) == int(n.Length)
+//@   loop 1 invariant samebase(msg, old(msg)) || fresh(msg)
+//@   loop 1 modifies mapof(compression), spare(msg)
+//@   loop 2 invariant begin <= j && j <= i && i < int(n.Length) && 0 <= begin && n.Length <= 254
+//@   loop 2 invariant len(msg) >= compressionOff
+//@   loop 2 invariant samebase(msg, atloop(msg)) || loopfresh(msg)
+//@   loop 2 modifies spare(msg)
